@@ -500,6 +500,10 @@ class PathEval:
         elif re.search(r'(Option|Result)::<.*>::(as_ref|as_mut|copied|cloned|map|map_err)$', base) and isinstance(a0, tuple) and a0[0] in ('d', 'ref'):
             x = env.get(a0[1]) if a0[0] == 'ref' else a0
             if isinstance(x, tuple) and x[0] == 'd': v = ('d', x[1], x[2] if base.endswith(('as_ref', 'as_mut', 'copied', 'cloned')) else None)
+        elif re.search(r'Result::<.*>::and_then$', base) and isinstance(a0, tuple) and a0[0] == 'd' and a0[1] == 1:
+            v = ('d', 1, None)                                  # Err(e).and_then(f) == Err(e): the closure only sees Ok payloads
+        elif re.search(r'Option::<.*>::and_then$', base) and isinstance(a0, tuple) and a0[0] == 'd' and a0[1] == 0:
+            v = ('d', 0, None)                                  # None.and_then(f) == None
         elif re.search(r'<bool as std::clone::Clone>::clone$', nm) and isinstance(a0, tuple) and a0[0] == 'ref':
             v = env.get(a0[1])
         if v is None: v = self._fresh(env, ('tok', bi))
